@@ -19,3 +19,20 @@ func FuzzVerifC15LocalLoad(f *testing.F) {
 		vfC15RunLoad(g.FuzzSink{T: t}, vfC15LoadScenario{Kind: "fuzz", Records: []g.Bytes{g.Bytes(rec)}, Cap: int(capacity % 12), NoENI: noENI})
 	})
 }
+
+// FuzzVerifC15BackoffOverride: eni_conf documents (backoff_override) under the
+// coverage-guided fuzzer, applied and followed into Remote.Allocate / CRDV2.Allocate in a
+// child process per input (oracle of TestVerifC15BackoffOverride; slow: a few thousand
+// executions per run).
+func FuzzVerifC15BackoffOverride(f *testing.F) {
+	for _, s := range append(vfC15BackoffHostile, g.FuzzHostile...) {
+		f.Add([]byte(s), uint8(1), false)
+		f.Add([]byte(s), uint8(0), true)
+	}
+	f.Add([]byte(`{"backoff_override":{"wait_podeni_status":{"Duration":1000000,"Factor":1,"Jitter":0.3,"Steps":3}},"max_pool_size":5}`), uint8(1), false)
+	f.Fuzz(func(t *testing.T, conf []byte, state uint8, cancelled bool) {
+		defer g.FuzzGuard(t, "FuzzVerifC15BackoffOverride", conf, state, cancelled)()
+		vfC15RunBackoff(g.FuzzSink{T: t}, vfC15BackoffScenario{Kind: "fuzz", ENIConf: g.Bytes(conf), PodENI: int(state % 6), NodeCR: int(state / 6 % 4),
+			Trunk: state&64 != 0, OtherENI: state&128 != 0, Cancel: cancelled})
+	})
+}
